@@ -1,7 +1,39 @@
 import ScVerif.Base.Line
-/-! Driver handler for C14 (stub: replaced by the property's owner). -/
+import ScVerif.C14.Acceptor
+/-! Driver handler for C14 (stateful): one observation per line, answers the acceptor's verdict. -/
 namespace ScVerif.C14
+open ScVerif.Line
 
-def handle (_toks : List String) : String := "!bad-op"
+def parseObs? (toks : List String) : Option Obs :=
+  match toks with
+  | ["fact", m, v, p] => do pure (.fact (← parseNat? m) (← parseNat? v) (← parseNat? p))
+  | ["get", m, w] => do pure (.get (← parseNat? m) (← parseNat? w))
+  | ["updok", v] => do pure (.updok (← parseNat? v))
+  | ["upderr"] => some .upderr
+  | ["open", m, uo] => do pure (.open_ (← parseNat? m) (← parseBool? uo))
+  | ["recv", i, w, n] => do pure (.recv (← parseNat? i) (← parseNat? w) (← parseBool? n))
+  | ["idle", i] => do pure (.idle (← parseNat? i))
+  | ["close", i] => do pure (.close (← parseNat? i))
+  | ["getpanic"] => some (.bad "Get/panic")
+  | ["geterr"] => some (.bad "Get/error")
+  | ["updpanic"] => some (.bad "Update/panic")
+  | ["openerr"] => some (.bad "Pull/open-failed")
+  | ["ended", _] => some (.bad "Pull/stream-ended")
+  | _ => none
+
+def showVerdict : Verdict → String
+  | .ok => "ok"
+  | .reject c => "reject:" ++ c
+  | .missingFact => "!missing-fact"
+
+def handle (a : Acc) (toks : List String) : Acc × String :=
+  match toks with
+  | ["reset"] => (Acc.init, "ok")
+  | _ =>
+    match parseObs? toks with
+    | none => (a, "!bad-op")
+    | some o =>
+      let (a', v) := accept a o
+      (a', showVerdict v)
 
 end ScVerif.C14
